@@ -12,5 +12,6 @@ H1-rename-receiver-param C15
 H2-rename-local C11
 H3-add-logging-and-reorder C04
 H4-reorder-independent C11
+H5-extract-helper C01
 LIST
 exit $fail
